@@ -24,6 +24,7 @@ type Stats struct {
 	Samples     []interface{}
 	Events      map[string]int64 // named observations (phase events, op counters)
 	MaxSamples  int
+	offered     int64
 }
 
 func NewStats(prop string) *Stats {
@@ -71,9 +72,16 @@ func (s *Stats) DistinctKeys() []uint64 {
 	return out
 }
 
+// Sample keeps a small, deterministic spread of the offered cases: the first few, then every case
+// whose ordinal is a power of two replaces a slot (so late, state-rich cases are represented too).
 func (s *Stats) Sample(v interface{}) {
+	s.offered++
 	if len(s.Samples) < s.MaxSamples {
 		s.Samples = append(s.Samples, v)
+		return
+	}
+	if s.offered&(s.offered-1) == 0 {
+		s.Samples[2+int(s.offered>>1)%(s.MaxSamples-2)] = v
 	}
 }
 
